@@ -18,6 +18,10 @@
 #include "assemblyline.h"
 #include "common.h"
 #include "parser.h"
+#include "verif_hooks.h"
+#ifdef ASSEMBLYLINE_VERIF
+struct al_verif_hooks al_verif;
+#endif
 #if HAVE_CONFIG_H
 #include <config.h> // from autotools
 #endif
